@@ -280,13 +280,16 @@ void prop(const Case& cs) {
       // a non-empty operand hashed with another seed must be refused wherever the operation looks at it
       uint64_t other = seed + 1 + (op.uarg(1) % 5);
       if (vf::ref_seed_hash(other) == vf::ref_seed_hash(seed)) continue;  // 16-bit seed hashes can collide: not a refusal case
-      auto ws = update_theta_sketch::builder().set_seed(other).build();
-      for (int k = 0; k < 10; ++k) ws.update(static_cast<int64_t>(k));
+      // the foreign sketch is in estimation mode half of the time (its theta must not leak into anything either)
+      const bool foreign_est = (op.uarg(1) & 8) != 0 || (op.uarg(0) & 4) != 0;
+      auto ws = update_theta_sketch::builder().set_lg_k(5).set_seed(other).build();
+      for (int k = 0; k < (foreign_est ? 400 : 10); ++k) ws.update(static_cast<int64_t>(k));
       auto wc = ws.compact();
       int which = static_cast<int>(op.uarg(0) % 4);
       bool threw = false;
       try {
-        if (which == 0) { auto u2 = mk_union(); u2.update(wc); }
+        // which 0: the LIVE union of the case refuses it - a refusal is a no-op, so every later result of that union is still the model's
+        if (which == 0) { U.update(wc); }
         else if (which == 1) { theta_intersection i2(seed); i2.update(wc); }
         else {
           auto good = update_theta_sketch::builder().set_seed(seed).build();
@@ -367,7 +370,7 @@ rc::Gen<Case> gen_main() {
       {2, op1("i_res", range(0, 1))},
       {3, op4("anotb", range(0, 5), range(0, 5), range(0, 1), range(0, 1))},
       {2, op2("jac", range(0, 5), range(0, 5))},
-      {1, op2("wrongseed", range(0, 3), range(0, 4))},
+      {1, op2("wrongseed", range(0, 7), range(0, 15))},
   });
   auto ops = rc::gen::map(rc::gen::tuple(rc::gen::mapcat(range(2, 5), [inp5](int64_t n) { return rc::gen::container<std::vector<Op>>(static_cast<size_t>(n), inp5); }), oplist(hist, 3, 0.25)),
                           [](std::tuple<std::vector<Op>, std::vector<Op>> t) { auto v = std::get<0>(t); auto& h = std::get<1>(t); v.insert(v.end(), h.begin(), h.end()); return v; });
